@@ -854,6 +854,89 @@ fn sweep_range(sp: &Space, policy: Policy, fresh_upto: u64, lo: u64, hi: u64) ->
     )
 }
 
+/// The arity matrix: every parameter list of 0-5 fixed parameters with and without a rest
+/// parameter x every argument count from 0 to two more than fits x every body that returns one
+/// parameter / the rest list / all of them x every spelling of definition and call (inline lambda,
+/// define sugar, define + lambda, apply with a list, apply with 1-3 leading arguments, through a
+/// procedure parameter). Arguments are ticks: each is evaluated exactly once, in one global order.
+pub fn arity_programs() -> Vec<(Vec<Sx>, String)> {
+    let mut out = vec![];
+    for k in 0..=5usize {
+        for rest in [false, true] {
+            let ps: Vec<String> = (1..=k).map(|i| format!("p{}", i)).collect();
+            let params = match (k, rest) {
+                (0, true) => "r".to_string(),
+                (_, true) => format!("({} . r)", ps.join(" ")),
+                (_, false) => format!("({})", ps.join(" ")),
+            };
+            let sugar = match (k, rest) {
+                (0, true) => "(f . r)".to_string(),
+                (_, true) => format!("(f {} . r)", ps.join(" ")),
+                (_, false) => format!("(f{}{})", if k > 0 { " " } else { "" }, ps.join(" ")),
+            };
+            let mut bodies: Vec<String> = ps.clone();
+            if rest {
+                bodies.push("r".into());
+            }
+            bodies.push(format!("(list {}{})", ps.join(" "), if rest { " r" } else { "" }));
+            for nargs in 0..=(k + 2).min(7) {
+                let args: Vec<String> = (1..=nargs).map(|i| format!("(tick {} {})", i, 10 + i)).collect();
+                for body in &bodies {
+                    let tag = format!("params={} rest={} args={}", k, rest, nargs);
+                    let lam = format!("(lambda {} {})", params, body);
+                    let call = |f: &str| format!("({}{}{})", f, if nargs > 0 { " " } else { "" }, args.join(" "));
+                    let mut progs: Vec<Vec<String>> = vec![
+                        vec![call(&lam)],
+                        vec![format!("(define {} {})", sugar, body), call("f")],
+                        vec![format!("(define f {})", lam), call("f")],
+                        vec![format!("(define f {})", lam), format!("(apply f (list {}))", args.join(" "))],
+                        vec![format!("(define f {})", lam), format!("((lambda (g) {}) f)", call("g"))],
+                        vec![format!("(define f {})", lam), format!("(apply {} (list {}))", lam, args.join(" "))],
+                    ];
+                    for lead in 1..=nargs.min(3) {
+                        progs.push(vec![format!("(define {} {})", sugar, body), format!("(apply f {} (list {}))", args[..lead].join(" "), args[lead..].join(" "))]);
+                    }
+                    for p in progs {
+                        out.push((p.iter().map(|t| crate::sexp::parse1(t)).collect(), tag.clone()));
+                    }
+                }
+            }
+        }
+    }
+    out
+}
+
+fn arity_matrix(policy: Policy) -> Acc {
+    let progs = arity_programs();
+    let pr = &progs;
+    par::sweep(
+        progs.len() as u64,
+        64,
+        |_| new_worker(),
+        |w, acc, i| {
+            let (forms, tag) = &pr[i as usize];
+            let r = judge_program(w, forms, policy, false);
+            acc.evals += 1;
+            acc.count("arity-matrix", 1);
+            acc.count(&format!("arity-matrix {}", tag.split(' ').next().unwrap_or("")), 1);
+            acc.outcome_class(&r.class);
+            acc.distinct_hash(r.outcome_hash);
+            if !r.ok {
+                acc.mismatch(
+                    Mismatch {
+                        idx: 8_000_000_000 + i,
+                        case: format!("[arity matrix: {}]\n{}", tag, program_text(forms)),
+                        expected: r.expected.clone(),
+                        observed: r.observed.clone(),
+                        payload: json!({"forms": forms.iter().map(|f| f.to_string()).collect::<Vec<_>>(), "policy": [policy.left_to_right, policy.operator_first]}),
+                    },
+                    None,
+                );
+            }
+        },
+    )
+}
+
 fn segment() -> u64 {
     std::env::var("C01_SEGMENT").ok().and_then(|s| s.parse().ok()).unwrap_or(30_000_000)
 }
@@ -935,6 +1018,7 @@ pub fn run(ctx: &Ctx) -> i32 {
         }
     }
     let (mut acc, policy) = best.unwrap();
+    acc.merge(arity_matrix(policy));
     acc.notes.push(format!("operand-order policy that explains every case: left_to_right={} operator_first={}", policy.left_to_right, policy.operator_first));
     let blocks: Vec<_> = sp.blocks.iter().map(|(t, n, k)| json!({"naming": sp.tables[*t].2, "nodes": n, "programs": k})).collect();
     report::finish(
@@ -944,7 +1028,7 @@ pub fn run(ctx: &Ctx) -> i32 {
             tier: ctx.tier_name(),
             seed: ctx.seed,
             exhaustive: true,
-            rule: "every program of the typed core grammar (literals, variables, -, car/cdr/cons/list/null?, if with boolean and non-boolean tests, lambda with fixed/rest parameters, bodies with internal definitions incl. forward references, applications, apply with and without spread arguments, higher-order and closure-making procedures, top-level definitions in both spellings, tick at every position) with at most N nodes, under two naming disciplines (fresh names / role names that shadow); distinct = distinct per-form observation vectors".into(),
+            rule: "every program of the typed core grammar (literals, variables, -, car/cdr/cons/list/null?, if with boolean and non-boolean tests, lambda with fixed/rest parameters, bodies with internal definitions incl. forward references, applications, apply with and without spread arguments, higher-order and closure-making procedures, top-level definitions in both spellings, tick at every position) with at most N nodes, under two naming disciplines (fresh names / role names that shadow); plus the arity matrix: 0-5 fixed parameters with / without a rest parameter x 0..k+2 arguments (ticks) x bodies returning each parameter / the rest list / all x 6-9 spellings of definition and call; distinct = distinct per-form observation vectors".into(),
             bounds: json!({"max_nodes": max_nodes, "scoping_grammar_max_nodes": scope_nodes, "loop_grammar_max_nodes": loop_nodes, "blocks": blocks, "fresh_mode_reruns_upto_index": fresh_upto}),
             assumptions: vec![
                 "reference evaluator refsem (self-tested on R7RS 4.1/4.2 examples)".into(),
